@@ -527,6 +527,12 @@ func c08Strata() []*gast.Grammar {
 			r("E1", gast.C(gast.S(gast.Ref("At"), gast.AndE(gast.L(";"))), act(gast.S(gast.Lab("a", gast.Ref("E1")), gast.L("-"), gast.Lab("b", gast.Ref("E2"))), 1, mon.Spec{}), gast.Ref("E2"))),
 			r("E2", gast.C(gast.S(gast.Ref("At"), gast.NotE(gast.Cl(gast.Chars("/%")))), act(gast.S(gast.Lab("a", gast.Ref("E2")), gast.Cl(gast.Chars("/%")), gast.Lab("b", gast.Ref("At"))), 2, mon.Spec{}), gast.Ref("At"))),
 			r("At", act(gast.Plus(gast.Cl(&gast.ClassSpec{Ranges: [][2]rune{{'0', '9'}}})), 3, mon.Spec{R: 2}))),
+		// a rule that is left-recursive directly AND through one other rule whose name sorts before its own
+		// (C1 < E1), entered through the rule itself
+		mk(r("S", gast.S(gast.Lab("a", gast.Ref("E1")), gast.Star(gast.Dot()))),
+			r("E1", gast.C(act(gast.S(gast.Lab("a", gast.Ref("E1")), gast.L("+"), gast.Lab("b", gast.Ref("At"))), 1, mon.Spec{}), act(gast.S(gast.Lab("a", gast.Ref("C1")), gast.L("!")), 2, mon.Spec{}), gast.Ref("At"))),
+			r("C1", act(gast.S(gast.Lab("a", gast.Ref("E1")), gast.L("("), gast.L(")")), 3, mon.Spec{})),
+			r("At", act(gast.Plus(gast.Cl(&gast.ClassSpec{Ranges: [][2]rune{{'0', '9'}}})), 4, mon.Spec{R: 2}))),
 		// recursive tails that start with a case-insensitive literal or class, written in either case
 		// (the generator lower-cases them; the input keeps its own case)
 		mk(r("S", gast.S(gast.Lab("a", gast.Ref("Cond")), gast.NotE(gast.Dot()))),
